@@ -73,6 +73,10 @@ KindsOf(T) ==
         cat(i) == IF i > Len(KindOrder) THEN "" ELSE (IF KindOrder[i] \in ks THEN KindOrder[i] ELSE "") \o cat(i + 1)
     IN cat(1)
 
+\* does the definition of tag t contain a sub-query, directly or through the tags it references?
+RECURSIVE HasSub(_)
+HasSub(t) == t \in DOMAIN tags /\ (tags[t].def.k = "S" \/ \E u \in Refs(tags[t].def) \cap DOMAIN tags : HasSub(u))
+
 Picks == DOMAIN tags' \cup DOMAIN tags \cup {""}
 
 \* C12 conformance: the state a new Manager shows on the directory left by a kill is what the specification's Restart
@@ -252,6 +256,18 @@ Props ==
                     KindsOf({t \in DOMAIN tags : \E e \in vis : e[1] \notin tags[t].U /\ ((e[1] \in tags[t].M) # (e[1] \in truth[t]))}))
             /\ ChkI(\A t \in DOMAIN r.obs.search : S(r.obs.search[t]) = truth[t], r, "C06.SearchRight",
                     KindsOf({t \in DOMAIN r.obs.search : S(r.obs.search[t]) # truth[t]}))
+            \* negated and combined tag filters (every undecided tag is inlined, also inverted and in products)
+            /\ LET ids == {e[1] : e \in vis}
+                   want(x) == CASE x.kind = "not" -> ids \ truth[x.a]
+                                [] x.kind = "and" -> truth[x.a] \cap truth[x.b]
+                                [] x.kind = "or" -> truth[x.a] \cup truth[x.b]
+                                [] x.kind = "andnot" -> truth[x.a] \ truth[x.b]
+                   bad == {i \in DOMAIN r.obs.search2 : r.obs.search2[i].err # "" \/ S(r.obs.search2[i].res) # want(r.obs.search2[i])}
+                   names(i) == {r.obs.search2[i].a} \cup (IF r.obs.search2[i].b = "" THEN {} ELSE {r.obs.search2[i].b})
+                   \* searches that inline a tag with a sub-query (directly or through references): known finding C06.SearchRight:S
+                   subs(i) == \E t \in names(i) : HasSub(t)
+                   other == {i \in bad : ~subs(i)}
+               IN ChkI(bad = {}, r, "C06.SearchRightCombined", IF other = {} THEN "S" ELSE KindsOf(UNION {names(i) : i \in other}))
             /\ Chk(\A s \in DOMAIN r.obs.shown : \A t \in S(r.obs.shown[s]) : t \in DOMAIN truth /\ \E e \in vis : ToString(e[1]) = s /\ e[1] \in truth[t],
                    r, "C06.ShownRight")
             \* a view that evaluates undecided tags on demand (what the HTTP API does) shows exactly the tags that hold
